@@ -11,7 +11,7 @@ for case in mod.cases(tier):
     t=time.time()
     r = C.run_case(case, tier, known.get(case.id, {}))
     print('==', case.id, 'paths', r['paths'], 'cover', r['cover'], '%.2fs'%(time.time()-t))
-    if r['error']: print('ERROR', r['error'])
+    if r['error']: print('ERROR', r['error'][:200], '...', r['error'][-300:])
     if r['notes']: print('NOTES', sorted(set(r['notes']))[:5])
     if r['undecided_reason']: print('UNDECIDED', r['undecided_reason'])
     for k,v in r['clauses'].items():
